@@ -1401,4 +1401,100 @@ theorem getMsgSig_same_classes (m m' : PSIPMsg) (b b' : Buf) (hr : m.request = t
   rw [hinit]
   exact sigApply_congr_class _ _ _ rfl hfirsts
 
+/-! ### tests / non-vacuity (`decide +kernel` on concrete inputs; these are examples, not the general claims) -/
+
+/-- test: a From-tag `a-1`: class `-` only (too short for an encoding guess) -/
+example : getStrCharsSig "a-1".toUTF8.data 0 0 = (SigHasDashF, 0) ∧ scSig "a-1".toUTF8.data.toList = SigHasDashF := by
+  decide +kernel
+
+/-- test: 16 hex digits: hex-encoding flag; one more byte `g` appended: the flag is gone (the encoding bits are NOT
+    monotone under concatenation) -/
+example : scSig "0123456789abcdef".toUTF8.data.toList = SigHexEncF ∧
+    scSig "0123456789abcdefg".toUTF8.data.toList = 0 := by decide +kernel
+
+/-- test: four blocks of hex digits separated by `-`: hex encoding + digit blocks + the class of `-` -/
+example : scSig "ab12-cd34-ef56-7890".toUTF8.data.toList = SigHasDashF ||| SigHexEncF ||| SigDigBlocksF ∧
+    scFirstRes "ab12-cd34-ef56-7890".toUTF8.data.toList = 45 ∧
+    scSepCount "ab12-cd34-ef56-7890".toUTF8.data.toList = 3 ∧
+    scRuns 0 "ab12-cd34-ef56-7890".toUTF8.data.toList = [4, 4, 4, 4] := by decide +kernel
+
+/-- test: the encoding bits are POSITIONAL — `GGGGGGGG=` is flagged base64, its permutation `=GGGGGGGG` is not
+    (the class bit of `=` is set in both, as `getStrCharsSig_perm_low` says) -/
+example : scSig "GGGGGGGG=".toUTF8.data.toList = SigHasEqF ||| SigB64EncF ∧
+    scSig "=GGGGGGGG".toUTF8.data.toList = SigHasEqF ∧
+    "GGGGGGGG=".toUTF8.data.toList.Perm "=GGGGGGGG".toUTF8.data.toList := by
+  refine ⟨by decide +kernel, by decide +kernel, ?_⟩
+  exact (List.perm_append_comm (l₁ := "GGGGGGGG".toUTF8.data.toList) (l₂ := [61]))
+
+/-- test: … and so is the hex guess: the same bytes in two blocks of 8 + 1 or in nine blocks -/
+example : scSig "12345678-1".toUTF8.data.toList = SigHasDashF ||| SigHexEncF ||| SigDigBlocksF ∧
+    scSig "1-2345678-".toUTF8.data.toList = SigHasDashF := by decide +kernel
+
+/-- test / non-vacuity of `getCallIDSig_ip4_bits`: `x@1.2.3.4` — the leftmost quad is `[2, 9)`, it ends the Call-ID
+    (bit 1), the `@` directly before it is in the class (bit 3) but skipped for the length; the dots inside the
+    address are not in the class -/
+example : scLeftmostLongest "x@1.2.3.4".toUTF8.data 2 7 ∧
+    getCallIDSig "x@1.2.3.4".toUTF8.data = (SigIPEndF ||| SigHasAtF, 1, false) := by
+  refine ⟨containsIP4_ll _ (ip := #[1, 2, 3, 4]) (by decide +kernel), by decide +kernel⟩
+
+/-- test: the address in the middle / at the start; `1.2.3.4567`: the quad taken is `1.2.3.45` (longest), middle -/
+example : (getCallIDSig "ab-1.2.3.4-cd".toUTF8.data).1 = SigIPMiddleF ||| SigHasDashF ∧
+    (getCallIDSig "1.2.3.4@host".toUTF8.data).1 = SigIPStartF ||| SigHasAtF ∧
+    containsIP4 "1.2.3.4567".toUTF8.data = some (0, 8, #[1, 2, 3, 45]) ∧
+    (getCallIDSig "a1.2.3.4567".toUTF8.data).1 = SigIPMiddleF := by decide +kernel
+
+/-- test: no dotted quad, but ContainsIP6 reports an address: a position bit is set without any IPv4 address
+    (`scHasIP4` fails: `containsIP4 = none`) -/
+example : containsIP4 "ab::1".toUTF8.data = none ∧ (getCallIDSig "ab::1".toUTF8.data).1.testBit 0 = true := by
+  decide +kernel
+
+/-- non-vacuity of `getCallIDSig_noip_eq` -/
+example : containsIP4 "abc-def".toUTF8.data = none ∧ containsIP6 "abc-def".toUTF8.data = none ∧
+    getCallIDSig "abc-def".toUTF8.data = (SigHasDashF, 2, false) := by decide +kernel
+
+/-- the first Via of the C19 test message -/
+def scExVia : Buf := "SIP/2.0/UDP h;branch=z9hG4bK-a.b".toUTF8.data
+
+/-- test: cookie stripped, class of `-a.b` -/
+example : getViaBrSig scExVia = (SigHasDotF ||| SigHasDashF, 4, false) := by decide +kernel
+
+/-- test: a later `branch` is ignored, the name is matched case-insensitively, a value that is only the cookie is
+    kept whole, no `branch` gives the empty signature -/
+example : getViaBrSig "SIP/2.0/UDP h;rport;BrAnCh=z9hG4bK-a.b;branch=x_y".toUTF8.data =
+      (SigHasDotF ||| SigHasDashF, 4, false) ∧
+    getViaBrSig "SIP/2.0/UDP h;branch=z9hG4bK".toUTF8.data = (0, 7, false) ∧
+    getViaBrSig "SIP/2.0/UDP h;rport;ttl=1".toUTF8.data = (0, 0, false) ∧
+    getViaBrSig "SIP/2.0/UDP h".toUTF8.data = (0, 0, false) := by decide +kernel
+
+/-- a run of parameter bytes, checked by evaluation (for the examples) -/
+theorem scPRun_of_check (b : Buf) (flags i j : Nat)
+    (h : (List.range' i (j - i)).all (fun k =>
+      match b[k]? with
+      | some c => tokAllowedChar c flags && c != tpSep flags && c != tpTerm flags
+      | none => false) = true) : PRun b flags i j := by
+  intro k h1 h2
+  rw [List.all_eq_true] at h
+  have := h k (by rw [List.mem_range']; exact ⟨k - i, by omega, by omega⟩)
+  cases hb : b[k]? with
+  | none => rw [hb] at this; cases this
+  | some c =>
+    rw [hb] at this
+    simp only [Bool.and_eq_true, bne_iff_ne, ne_eq] at this
+    exact ⟨c, rfl, this.1.1, this.1.2, this.2⟩
+
+/-- non-vacuity of `getViaBrSig_glist`: the value above is `… ;` + a `GList` of one parameter -/
+example : getViaBrSig scExVia = scViaResult scExVia
+    [{ name := ⟨14, 6⟩, val := ⟨21, 11⟩, all := ⟨14, 18⟩, state := .fin }] := by
+  refine getViaBrSig_glist scExVia 13 32 .eoh _ (by decide) (by decide +kernel) ?_ ?_
+  · intro k hk
+    have : k = 0 ∨ k = 1 ∨ k = 2 ∨ k = 3 ∨ k = 4 ∨ k = 5 ∨ k = 6 ∨ k = 7 ∨ k = 8 ∨ k = 9 ∨ k = 10 ∨ k = 11 ∨
+        k = 12 := by omega
+    rcases this with rfl | rfl | rfl | rfl | rfl | rfl | rfl | rfl | rfl | rfl | rfl | rfl | rfl <;> decide +kernel
+  · refine GList.last 14 32 .eoh _ ?_ (Or.inr rfl)
+    refine GParam.token 14 14 14 20 20 21 32 32 .eoh .fin (Pad.nil 14) (Lws.nil 14) ?_ (by decide) (Lws.nil 20)
+      (by decide +kernel) (Lws.nil 21) ?_ (by decide) ?_
+    · exact scPRun_of_check _ _ 14 20 (by decide +kernel)
+    · exact scPRun_of_check _ _ 21 32 (by decide +kernel)
+    · exact Ending.inputEnd 32 32 (by decide) (Lws.nil 32) (EndTail.none 32 (by decide +kernel))
+
 end Sipsp
